@@ -247,6 +247,8 @@ def rnd_settings(rng):
     st = dict(clear=rng.random() < 0.4, shrink=rng.random() < 0.3, g90e=rng.random() < 0.3,
               enter=rng.choice([[], [], ['M117 in'], ['M106 S0', 'M117 skip'], ['@OCTOLAPSE TAKE-SNAPSHOT', 'M117 in'], ['SET_PIN PIN=fan VALUE=0']]),
               exit=rng.choice([[], [], ['M117 out'], ['M106 S255', 'G4 P1'], ['M117 out', '@fan_restore'], ['RESTORE_GCODE_STATE NAME=skip', 'M400']]), ext=ext)
+    if st['enter'] and rng.random() < 0.12:
+        st['exit'] = list(st['enter'])          # the same script on both sides
     k = rng.random()
     if k < 0.25:
         st['atc'] = DEFAULT_ATC + [('Purge', None, 'disable_exclusion'), ('Resume', '^\\s*go', 'enable_exclusion')]
@@ -340,7 +342,8 @@ def gen_history(rng, dirty_before_start=False):
         anon = rng.random() < 0.1
         if k < 0.4 or not regs:
             nid[0] += 1
-            rid = 'r%d' % nid[0] if rng.random() < 0.85 or not regs else rng.choice(list(regs))
+            # ids in no particular order (uuid-like in the UI): neither creation order nor string order may be relied on
+            rid = '%s%d' % (rng.choice('rzaRk'), nid[0]) if rng.random() < 0.85 or not regs else rng.choice(list(regs))
             if rng.random() < 0.1:
                 rid = rng.choice(['', '', '0'])       # legal ids that happen to be falsy / look like numbers
             data = rnd_region_data(rng, rid)
@@ -505,15 +508,35 @@ def hook_history(rng):
     reg = dict(type='RectangularRegion', id='h1', x1=10.0 + 1.0 / 2048, y1=10.0 + 1.0 / 2048, x2=20.0 + 1.0 / 2048, y2=20.0 + 1.0 / 2048)
     st = rnd_settings(rng)
     st['shrink'] = rng.random() < 0.7
-    evs = [('api', 'addExcludeRegion', reg, False), ('event', 'PRINT_STARTED'), ('cmd', 'G28'), ('cmd', 'G1 X5 Y5 Z0.3 E1 F3000'), ('cmd', 'G1 X15 Y15 E1.5')]
-    for _ in range(rng.randint(0, 4)):
+    evs = [('api', 'addExcludeRegion', reg, False), ('event', 'PRINT_STARTED'), ('cmd', 'G28'), ('cmd', 'G1 X5 Y5 Z0.3 E1 F3000')]
+    entry = rng.random()
+    if entry < 0.25:
+        # moves made while exclusion is switched off are tracked all the same: the entering move names one axis only
+        evs += [('at', '@ExcludeRegion off', False), ('cmd', rng.choice(['G1 X15 Y5 E1.2', 'G1 X15 E1.2', 'G0 X15'])), ('at', '@ExcludeRegion on', False),
+                ('cmd', rng.choice(['G1 Y15 E1.5', 'G1 Y15', 'G0 Y12 F6000']))]
+    elif entry < 0.4:
+        # relative positioning: there-and-back moves inside the region leave binary64 residue in the offsets the clean-up has to undo
+        evs += [('cmd', 'G1 X15 Y15 E1.5'), ('cmd', 'G91')]
+        ax = rng.choice('XYZ')
+        for a in rng.choice([('0.1', '0.2', '-0.3'), ('0.7', '-0.1', '-0.6'), ('1.1', '2.2', '-3.3')]):
+            evs.append(('cmd', 'G1 %s%s' % (ax, a)))
+        if rng.random() < 0.5:
+            evs.append(('cmd', 'G90'))
+    elif entry < 0.55:
+        # units switched inside the episode and Z moved afterwards: whether Z goes first or last on the way back is decided in millimetres
+        evs += [('cmd', 'G1 X15 Y15 E1.5'), ('cmd', 'G20'), ('cmd', rng.choice(['G1 Z0.02', 'G1 Z0.005', 'G1 Z0.3', 'G1 Z0.011811']))]
+        if rng.random() < 0.4:
+            evs.append(('cmd', 'G21'))
+    else:
+        evs.append(('cmd', 'G1 X15 Y15 E1.5'))
+    for _ in range(rng.randint(0, 4) if entry >= 0.55 else rng.randint(0, 1)):
         k = rng.random()
         if k < 0.25:
             evs.append(('api', 'deleteExcludeRegion', dict(id='h1'), False))
         elif k < 0.4:
             evs.append(('api', 'updateExcludeRegion', dict(type='CircularRegion', id='h1', cx=15.0, cy=15.0, r=rng.choice([1.0, 30.0])), False))
         elif k < 0.55:
-            evs.append(('cmd', rng.choice(['G91', 'G20', 'G90', 'G21', 'M204 S500', 'M117 x', 'G1 Z1', 'G1 E1', 'G10'])))
+            evs.append(('cmd', rng.choice(['G91', 'G20', 'G90', 'G21', 'M204 S500', 'M117 x', 'G1 Z1', 'G1 E1', 'G10', 'M73 P100 R0', 'M205 X0 Y8', 'M204 P0 T0'])))
         elif k < 0.7:
             evs.append(('event', rng.choice(['PRINT_PAUSED', 'PRINT_RESUMED'])))
         elif k < 0.8:
@@ -525,4 +548,4 @@ def hook_history(rng):
         evs.append(('script', 'gcode', 'afterPrintDone'))
     evs.append(('event', rng.choice(['PRINT_DONE', 'PRINT_CANCELLED'])))
     evs.append(('script', 'gcode', 'afterPrintDone'))
-    return dict(settings=st, events=evs)
+    return dict(settings=st, events=evs, refpos=True)
